@@ -82,6 +82,8 @@ class Kind:
             n = len(body)
             tag = b"ID3\x04\x00\x00" + bytes([(n >> 21) & 0x7F, (n >> 14) & 0x7F, (n >> 7) & 0x7F, n & 0x7F]) + body
             out.append(("id3prefix+" + out[0][0], tag + out[0][1]))
+        from . import synth
+        out += synth.extra_samples(self, list(out))
         return out
 
     def walk(self, data):
